@@ -3,10 +3,10 @@ package dsim
 // C07 — replication: replicas apply the leader's writes identically, in order.
 
 import (
-	"os"
 	"encoding/json"
 	"fmt"
 	"math/rand"
+	"os"
 	"sort"
 	"strconv"
 	"strings"
